@@ -410,7 +410,7 @@ func init() {
 				continue
 			}
 			// decommit decisions: the honest opening and mutated ones
-			for m := 0; m < 6; m++ {
+			for m := 0; m < 8; m++ {
 				c2, d2, seq2, kind := []byte(com), []byte(decom), seq, "honest"
 				switch m {
 				case 1:
@@ -430,6 +430,22 @@ func init() {
 						c2 = com[:63]
 					}
 					kind = "wrong-length-commitment"
+				case 6, 7:
+					// a decommitment of the wrong length (or all zero) together with the commitment that
+					// really is H(ctx, items, d): only the length / zero rule can refuse it
+					l := []int{0, 1, 16, 31, 33, 64}[c.Intn(6)]
+					d2 = c.Bytes(l)
+					kind = "forged-wrong-length-decommitment"
+					if m == 7 {
+						d2 = make([]byte, 32)
+						kind = "forged-zero-decommitment"
+					}
+					hh := h.Clone()
+					for _, v := range seq {
+						_ = hh.WriteAny(toGo(v))
+					}
+					_ = hh.WriteAny(hash.Decommitment(d2))
+					c2 = hh.Sum()
 				}
 				vals2 := make([]interface{}, len(seq2))
 				for k, v := range seq2 {
